@@ -32,6 +32,11 @@ CLAIMS = {
         technique='symbolic execution (CrossHair/z3) of the compiled render function with the inserted value as k symbolic code points; structural escape oracle',
         text='Per insertion site and value kind the solver decides over all code points (k <= 3 quick, <= 4-5 thorough) that the rendered region contains no raw markup/quote and un-escapes to the value.',
         note='Trusted: CrossHair string model + chsym plugin (str subclasses modelled as typed symbolic strings), the structural oracle; programs (sites) are enumerated.'),
+    'C08': dict(
+        engine='X+G', level='model_checking', design_ref='DESIGN.md 4 C08',
+        technique='symbolic execution (CrossHair/z3) of RepeatItem arithmetic for unbounded positions, letter/roman kernels on symbolic positions/digits; differential symbolic execution of repeat templates vs reference',
+        text='Position arithmetic decided for all 0 <= pos < length (no bound); letter/roman for the stated ranges; rendering (iterable kinds, unpacking, nesting, separators) per enumerated template over symbolic sequence lengths.',
+        note=G_NOTE),
     'C03': dict(
         engine='X+Z', level='model_checking', design_ref='DESIGN.md 4 C03',
         technique='symbolic execution (CrossHair/z3) of iter_xml/match_tag/emitters on shape-enumerated character-symbolic strings; z3 regex inclusion from the live lexer pattern',
